@@ -74,6 +74,7 @@ CHECKS["C01"] = {
         {"name": "regress", "run": "^TestC01Regress$", "kind": "plain"},
         {"name": "hostile-near-miss", "run": "^TestC01HostileNearMiss$", "kind": "plain", "shards": 8},
         {"name": "streams", "run": "^TestC01Streams$", "kind": "rapid", "checks": {"quick": 12000, "thorough": 400000}, "shards": {"quick": 8, "thorough": 16}},
+        {"name": "multipart-epilogue", "run": "^TestC01Multipart$", "kind": "rapid", "checks": {"quick": 2400, "thorough": 80000}, "shards": {"quick": 4, "thorough": 16}},
         {"name": "loopback", "run": "^TestC01Loopback$", "kind": "rapid", "checks": {"quick": 600, "thorough": 24000}, "shards": {"quick": 4, "thorough": 16}},
     ],
 }
